@@ -36,17 +36,18 @@ class AV(object):
     """Abstract value.  taint: must-depend on the seed; unk: provenance not fully tracked;
     clock: ids of wall-clock reads this value derives from; null: may be None / a value;
     refs: abstract objects / functions / classes / modules it may denote."""
-    __slots__ = ('taint', 'unk', 'clock', 'null', 'refs', 'rng', 'meta', 'setk', 'elem', 'isstr', 'isint', 'items', 'bottom')
+    __slots__ = ('taint', 'unk', 'clock', 'null', 'refs', 'rng', 'meta', 'setk', 'elem', 'isstr', 'isint', 'items', 'bottom', 'dflt')
 
     def __init__(self, taint=False, unk=False, clock=EMPTY, null=ONLY_V, refs=EMPTY, rng=False, meta=False,
-                 setk=None, elem=None, isstr=False, isint=False, items=None, bottom=False):
+                 setk=None, elem=None, isstr=False, isint=False, items=None, bottom=False, dflt=False):
         self.taint, self.unk, self.clock, self.null, self.refs = taint, unk, clock, null, refs
         self.rng, self.meta, self.setk, self.elem, self.isstr, self.isint = rng, meta, setk, elem, isstr, isint
         self.items, self.bottom = items, bottom
+        self.dflt = dflt     # the callee's own parameter default (the caller omitted the argument)
 
     def sig(self):
         return (self.taint, self.unk, self.clock, self.null, self.refs, self.rng, self.meta, self.setk, self.elem,
-                self.isstr, self.isint, self.bottom)
+                self.isstr, self.isint, self.bottom, self.dflt)
 
     def but(self, **kw):
         d = {k: getattr(self, k) for k in AV.__slots__}
@@ -81,7 +82,8 @@ def join(a, b):
         items = tuple(join(x, y) for x, y in zip(a.items, b.items))
     return AV(taint=a.taint and b.taint, unk=a.unk or b.unk, clock=a.clock | b.clock, null=a.null | b.null,
               refs=a.refs | b.refs, rng=a.rng or b.rng, meta=a.meta or b.meta, setk=setk,
-              elem=a.elem if a.elem == b.elem else None, isstr=a.isstr and b.isstr, isint=a.isint and b.isint, items=items)
+              elem=a.elem if a.elem == b.elem else None, isstr=a.isstr and b.isstr, isint=a.isint and b.isint, items=items,
+              dflt=a.dflt and b.dflt)
 
 
 def compose(vals, null=ONLY_V, **kw):
@@ -119,7 +121,7 @@ RNG_CTORS = {
 RNG_SEED_KW = ('seed', 'key', 'x', 'entropy', 'bit_generator', 'rng')
 # seed given positionally as the first argument (qmc engines and CMA take it by keyword only)
 RNG_POSITIONAL = {n for n in RNG_CTORS if not n.startswith('scipy.') and not n.startswith('evojax.')}
-LOG_PREFIXES = ('absl.logging.', 'logging.', 'warnings.')
+LOG_PREFIXES = ('absl.logging.', 'logging.', 'warnings.', 'jax.monitoring.')
 LOG_EXACT = {'print', 'absl.logging', 'logging'}
 PASSTHROUGH = {'equinox.filter_jit', 'jax.jit', 'copy.deepcopy', 'copy.copy', 'attr.evolve', 'attrs.evolve',
                'dataclasses.replace', 'jax.block_until_ready', 'jax.device_get', 'jax.device_put'}
@@ -211,6 +213,7 @@ class Collector(object):
         self.forwards = {}           # site -> dict  (explicit seed-like arguments)
         self.pruned = {}             # site -> text  (guarded fall-backs excluded)
         self.unresolved = set()
+        self.taint_passed = set()     # seed-derived values handed to callees we could not resolve
 
 
 class Frame(object):
@@ -242,6 +245,7 @@ class Engine(object):
         self.depth = 0
         self.modval_memo = {}
         self.mro_memo = {}
+        self.entry_seed_regex = True      # entry parameters named like a seed (SEEDLIKE) are seeds even if not declared
 
     # ------------------------------------------------------------------ module level resolution
     def expandable(self, dotted):
@@ -648,7 +652,7 @@ class Engine(object):
 
     def e_BinOp(self, node, frame):
         a, b = self.eval(node.left, frame), self.eval(node.right, frame)
-        out = compose([a, b], isstr=a.isstr and b.isstr and isinstance(node.op, ast.Add),
+        out = compose([a, b], isstr=(a.isstr and b.isstr and isinstance(node.op, ast.Add)) or (a.isstr and isinstance(node.op, (ast.Mod, ast.Mult))),
                       isint=a.isint and b.isint and not isinstance(node.op, ast.Div))
         if a.setk or b.setk:
             ks = {a.setk, b.setk} - {None}
@@ -839,7 +843,9 @@ class Engine(object):
         v = AV(unk=True, null=BOTH, meta=name == 'metadata')
         if ann is not None:
             e = self.annot_elem(c.mod, ann)
-            ci = self.annot_class(c.mod, ann) if obj.origin == 'annot' else None
+            # rule (2) is about self._x inside the object's own methods; attributes of *foreign* annotation-typed objects
+            # (state.algorithm.supporter...) are not followed: DESIGN section 6 'everything else is not expanded'
+            ci = self.annot_class(c.mod, ann) if (frame is not None and frame.selfobj is obj) else None
             if e:
                 v = v.but(elem=e)
             if ci is not None and (self.expandable(ci.mod.dotted) or self.is_sink_module(ci.mod.dotted)):
@@ -940,7 +946,7 @@ class Engine(object):
         site = '%s:%d:%s' % (frame.where(node), node.col_offset, name)
         self.escape(av, 'passed as `%s` to %s' % (name, callee_text), frame, node)
         self.col.forwards[site] = {'where': frame.where(node), 'callee': callee_text, 'param': name, 'tainted': av.taint,
-                                   'unknown': av.unk, 'is_none': av.null == ONLY_N, 'call': ast.unparse(node)[:160]}
+                                   'unknown': av.unk, 'is_none': av.null == ONLY_N, 'own_default': av.dflt, 'call': ast.unparse(node)[:160]}
 
     def call_ref(self, r, recv, args, kwargs, stars, kwstars, frame, node, text):
         kind = r[0]
@@ -1139,6 +1145,8 @@ class Engine(object):
             return compose(([recv] if recv is not None else []) + allv, isstr=attr in ('format', 'strip', 'lower', 'upper', 'replace', 'isoformat', 'strftime'))
         for v in allv:
             self.escape(v, 'passed to unresolved callee %s' % text, frame, node)
+            if v.taint:
+                self.col.taint_passed.add(frame.where(node))
         if not partly:
             self.col.unresolved.add(text)
         base = ([recv] if recv is not None else [callee]) + allv
@@ -1174,7 +1182,7 @@ class Engine(object):
             env[params[0].arg] = first
             params = params[1:]
         elif first is None and cdef is not None and params and params[0].arg in ('self', 'cls') and closure_key is None \
-                and not any(ast.unparse(d) == 'staticmethod' for d in fn.decorator_list):
+                and not any(ast.unparse(d) == 'staticmethod' for d in getattr(fn, 'decorator_list', [])):
             # unbound access we could not attach a receiver to
             env[params[0].arg] = unknown()
             params = params[1:]
@@ -1213,7 +1221,7 @@ class Engine(object):
             if kwstar_av is not None:
                 cands.append(kwstar_av)
             if p.arg in defaults:
-                cands.append(self.eval(defaults[p.arg], dframe))
+                cands.append(self.eval(defaults[p.arg], dframe).but(dflt=True))
             if not cands:
                 cands.append(self.param_value(mod, p, base=AV(null=BOTH, unk=frame is not None)))
             v = None
@@ -1232,11 +1240,11 @@ class Engine(object):
             for k, v in kwargs.items():
                 if k not in explicit:
                     self.forward_check(k, v, callee_text, frame, node)
-        if is_stub(fn):
+        if not isinstance(fn, ast.Lambda) and is_stub(fn):
             self.assume('abstract/protocol method %s: the concrete callee is chosen at run time and assumed deterministic' % callee_text)
             out = compose(allv + ([first] if first is not None else []), null=BOTH)
             return out.but(unk=not out.taint)
-        for d in fn.decorator_list:
+        for d in getattr(fn, 'decorator_list', []):
             dt = ast.unparse(d)
             if dt not in ('classmethod', 'staticmethod', 'property', 'abc.abstractmethod', 'functools.cached_property', 'override'):
                 self.assume('decorator @%s assumed to preserve determinism' % dt.split('(')[0])
@@ -1267,7 +1275,7 @@ class Engine(object):
             out = join(out, r)
         if out is None:
             out = NONE
-        if fn.returns is not None and not isinstance(fn, ast.Lambda):
+        if not isinstance(fn, ast.Lambda) and fn.returns is not None:
             if out.elem is None:
                 e = self.annot_elem(mod, fn.returns)
                 if e:
@@ -1741,7 +1749,7 @@ class Engine(object):
         kwargs, found = {}, []
         dfr = Frame(mod, None, None, {}, qual='<entry default>')
         for p in params + list(a.kwonlyargs):
-            if p.arg in seed_params:
+            if p.arg in seed_params or (self.entry_seed_regex and SEEDLIKE.search(p.arg)):
                 kwargs[p.arg] = self.seed_value(p.arg)
                 found.append(p.arg)
             else:
@@ -1785,7 +1793,8 @@ class Engine(object):
         else:
             kwargs, found = {}, []
             for f in self.fields(ci):
-                if f['init'] and (f['init_name'] in seed_params or f['name'] in seed_params):
+                if f['init'] and (f['init_name'] in seed_params or f['name'] in seed_params or
+                                  (self.entry_seed_regex and SEEDLIKE.search(f['init_name']))):
                     kwargs[f['init_name']] = self.seed_value(f['init_name'])
                     found.append(f['init_name'])
                 elif f['init'] and not f['has_default']:
@@ -1793,9 +1802,10 @@ class Engine(object):
             out = self.construct(ci, [], kwargs, [], [], efr, node)
         return out, found
 
-    def entry_method(self, objv, name):
-        """Call obj.<name>(arbitrary inputs) on an object built by entry_construct.  -> AV or None if no such method."""
-        out = None
+    def entry_method(self, objv, name, seed_params=()):
+        """Call obj.<name>(arbitrary inputs; seed_params tainted) on an object built by entry_construct.
+        -> (AV or None if no such method, seed params found)."""
+        out, found = None, []
         for r in objv.refs:
             if r[0] != 'obj':
                 continue
@@ -1803,14 +1813,14 @@ class Engine(object):
             c, fn = self.find_method(obj.cls, name)
             if fn is None:
                 continue
-            kwargs, kwstars, _ = self._entry_args(c.mod, fn, (), True)
+            kwargs, kwstars, found = self._entry_args(c.mod, fn, seed_params, True)
             efr = Frame(c.mod, c, None, {}, qual='<entry %s.%s>' % (obj.cls.qualname, name))
             node = ast.copy_location(ast.Pass(), fn)
             node.col_offset = 0
             v = self.call_function(c.mod, c, fn, AV(refs=frozenset([r])), [], kwargs, [], kwstars, efr, node,
                                    qual=c.qualname + '.' + name, selfobj=obj)
             out = join(out, v)
-        return out
+        return out, found
 
     # ------------------------------------------------------------------ results
     def summary(self):
@@ -1830,6 +1840,7 @@ class Engine(object):
             'rng_ctors': [v for _, v in sorted(col.rng_ctors.items())],
             'rng_uses': sorted(col.rng_uses),
             'forwards': [v for _, v in sorted(col.forwards.items())],
+            'taint_passed': sorted(col.taint_passed),
             'assumptions': sorted(col.assumptions), 'unresolved': sorted(col.unresolved),
         }
 
